@@ -3,6 +3,7 @@ from lib import core, gen
 from props.C04 import event_of
 
 LEVEL = 'proof'
+BBH_FEATURES = ['cps', 'oracle']      # harness command families this check needs (fallback build, lib/core.py build_bbh)
 GOALS = ['halt', 'blank', 'spin']
 RADII = [2, 3, 4, 5, 6, 7, 8, 9]
 
